@@ -81,6 +81,8 @@ def check_one(ref, av, sc, chi2, what, float32):
     slack = 0.
     if float32:
         slack = of.float32_slack(ref.bands, r['logm'], ref.k, av, 0.)
+    # conditioning of the aperture interpolation (a request 1e-6 above a knot of a steep table loses 6 digits)
+    slack += r.get('cond_slack', 0.)
     av_tol = r['av_tol'] if not float32 else None
     if av_tol is not None and abs(av - r['av']) > av_tol + 1e-9 * abs(r['av']):
         return ('c02:av_not_optimal', '%s: at d=%r kpc reported A_V %r, clipped least-squares optimum %r' % (
@@ -95,7 +97,7 @@ def check_one(ref, av, sc, chi2, what, float32):
     best = min(range(len(rows)), key=lambda i: rows[i]['S'] + rows[i]['sure'] + rows[i]['maybe'])
     rb = rows[best]
     ub = rb['S'] + rb['sure'] + rb['maybe']
-    tolb = 1e-9 * (max(rb['T'], rb['S']) + rb['sure'] + rb['maybe']) + 1e-9 + slack
+    tolb = 1e-9 * (max(rb['T'], rb['S']) + rb['sure'] + rb['maybe']) + 1e-9 + slack + rb.get('cond_slack', 0.)
     if chi2 > ub + tolb + tol:
         return ('c02:not_grid_minimum', '%s: reported chi2 %r at d=%r kpc, but d=%r kpc gives %r' % (
             what, chi2, ref.distances[j], ref.distances[best], ub))
@@ -160,8 +162,99 @@ def cases(draw, thorough=False):
     return draw(gen.fit_case_3d(max_models=10 if thorough else 6, max_filters=6 if thorough else 5))
 
 
-ENTRIES = {'fit3d': run_case}
+def run_large(case, ctx):
+    """A grid as large as real ones (n_models x n_distances x n_filters of several million elements): the quantifier sets no
+    bound on the number of models or distances, and implementations tend to process such grids in blocks.  Vectorised
+    float64 reference (the exact-rational one would take minutes), compared at 1e-8."""
+    import os
+    import numpy as np
+    from astropy import units as u
+    from vlib import pkgio
+    nm, nf = case['n_models'], 3
+    aps = [50., 400., 3000., 20000.]
+    theta = case['theta']
+    names = ['L%05d' % i for i in range(nm)]
+    idx = np.arange(nm)
+    law = {'wav': [0.05, 0.55, 3., 30., 300.], 'chi': [9., 1., 0.3, 0.05, 0.004]}
+    filt = [{'name': 'A', 'wav': 1.2}, {'name': 'B', 'wav': 4.5}, {'name': 'C', 'wav': 24.}]
+    k = np.array(of.extinction_pattern(law['wav'], law['chi'], [f['wav'] for f in filt]))
+    flux = np.empty((nf, nm, len(aps)))
+    for j in range(nf):
+        for a in range(len(aps)):
+            flux[j, :, a] = (1. + 0.4 * a) * (2. + np.sin(0.37 * idx + j) + 0.3 * np.cos(0.011 * idx * (a + 1))) * 10. ** (0.5 * j)
+    dmin, dmax, step = case['dmin'], case['dmax'], case['step']
+    with ctx.tempdir() as d:
+        pkgio.write_conf(d, True, step)
+        pkgio.write_parameters(d, names, {'p': [float(i) for i in range(nm)]})
+        for j in range(nf):
+            pkgio.write_convolved(d, filt[j]['name'], names, filt[j]['wav'], aps, flux[j], 0.1 * flux[j])
+        sc = {'law': law, 'filters': filt, 'grid': {'names': names}, 'format': 'v1', 'theta': theta, 'memmap': False}
+        with must_succeed('Fitter() on a large grid'), quiet():
+            fitter = gen.make_fitter(d, sc, case['av_range'], distance_range=[dmin, dmax] * u.kpc)
+        grid = of.distance_grid(dmin, dmax, step)[0]
+        dist = np.array(grid)
+        nd = len(dist)
+        logm = np.empty((nm, nd, nf))
+        for j in range(nf):
+            ap = np.minimum(theta[j] * dist * 1000., aps[-1])
+            for m in range(nm):
+                logm[m, :, j] = np.log10(np.interp(ap, aps, flux[j, m]) / dist ** 2)
+        src = {'name': 'big', 'x': 0., 'y': 0., 'flags': [1, 1, 1], 'flux': case['src_flux'],
+               'err': [f * r for f, r in zip(case['src_flux'], case['src_rel'])]}
+        bands = of.transform_source(src['flags'], src['flux'], src['err'])
+        y = np.array([b[1] for b in bands])
+        w = np.array([b[2] for b in bands])
+        with must_succeed('Fitter.fit on a large grid'), quiet():
+            info = fitter.fit(gen.source_object(src))
+        r = y[None, None, :] - logm
+        av = np.clip(np.sum(w * r * k, axis=2) / np.sum(w * k * k), case['av_range'][0], case['av_range'][1])
+        chi = np.sum(w * (r - av[:, :, None] * k) ** 2, axis=2)
+        best = np.argmin(chi, axis=1)
+        got = dict((str(n_).strip(), i) for i, n_ in enumerate(info.model_name))
+        if len(got) != nm or len(info.chi2) != nm:
+            fail('large grid: %d rows for %d models' % (len(info.chi2), nm), 'c02:model_set')
+        logd = np.log10(dist)
+        for m in range(nm):
+            i = got.get(names[m])
+            if i is None:
+                fail('large grid: model %s missing from the result' % names[m], 'c02:model_set')
+            c_ref = chi[m, best[m]]
+            if abs(float(info.chi2[i]) - c_ref) > 1e-8 * max(c_ref, 1.):
+                fail('large grid (%d models x %d distances x %d filters): model %s reports chi2 %r (A_V %r, scale %r), the '
+                     'minimum over the distance grid is %r at d=%r kpc' % (nm, nd, nf, names[m], float(info.chi2[i]),
+                                                                           float(info.av[i]), float(info.sc[i]), c_ref,
+                                                                           dist[best[m]]), 'c02:not_grid_minimum')
+            if abs(float(info.sc[i]) - logd[best[m]]) > 1e-9:
+                second = np.partition(chi[m], 1)[1] if nd > 1 else np.inf
+                if second - c_ref > 1e-7 * max(c_ref, 1.):
+                    fail('large grid: model %s reports scale %r, the grid minimum is at log d = %r' % (
+                        names[m], float(info.sc[i]), logd[best[m]]), 'c02:scale_not_on_grid')
+            elif abs(float(info.av[i]) - av[m, best[m]]) > 1e-7 * (1 + abs(av[m, best[m]])):
+                fail('large grid: model %s reports A_V %r, optimum %r' % (names[m], float(info.av[i]), av[m, best[m]]),
+                     'c02:av_not_optimal')
+        del fitter
+    return {'large_grid', 'elements=%.1fM' % (nm * nd * nf / 1e6)}, True
+
+
+@st.composite
+def large_cases(draw, thorough=False):
+    step = draw(st.sampled_from([0.002, 0.003]))
+    span = draw(st.sampled_from([1.0, 1.2]))
+    ndist = int(1 + span / step) + 1
+    target = draw(st.sampled_from([4.6e6, 6.0e6] if not thorough else [4.6e6, 9e6, 1.7e7]))
+    nm = int(target / (3 * ndist)) + draw(st.integers(1, 40))
+    return {'n_models': nm, 'step': step, 'dmin': 0.5, 'dmax': 0.5 * 10. ** span,
+            'theta': [draw(st.sampled_from([2., 5., 12.])) for _ in range(3)],
+            'av_range': draw(st.sampled_from([[0., 30.], [0., 2.]])),
+            'src_flux': [draw(gen.logfloat(0.1, 30.)) for _ in range(3)],
+            'src_rel': [draw(gen.logfloat(0.02, 0.3)) for _ in range(3)]}
+
+
+ENTRIES = {'fit3d': run_case, 'large': run_large}
 
 
 def plan(ctx):
     ctx.run_given('fit3d', cases(thorough=not ctx.quick), ctx.scale(60, 1200))
+    if ctx.shard < ctx.scale(1, 4):
+        # a few hundred MB of work arrays: only on one (thorough: four) of the shards
+        ctx.run_given('large', large_cases(thorough=not ctx.quick), ctx.scale(2, 3), shrink=False)
